@@ -281,38 +281,18 @@ func atomsOf(fn *ssa.Function) map[string]bool {
 
 func c15TColor(c *Ctx, p *Prog) {
 	fn := p.Fn("terminfo:(*Terminfo).TColor")
-	if fn == nil {
+	if fn == nil || len(fn.Params) != 3 {
 		c.Undecided("C15-R3", "TColor", "-", "not found")
 		return
 	}
-	at := atomsOf(fn)
-	need := func(key string, alts ...string) {
-		ok := false
-		for _, a := range alts {
-			if at[a] {
-				ok = true
-			}
-		}
-		c.Check(ok, "C15-R3", "TColor:"+key, p.pos(fn.Pos()), fmt.Sprintf("needs one of %v among the branch conditions %v", alts, sortedKeys(at)))
-	}
-	need("8-colour-test", "t.Colors == 8", "t.Colors != 8")
-	for _, v := range []string{"fi", "bi"} {
-		need(v+">7", v+" > 7", v+" <= 7", v+" >= 8", v+" < 8")
-		need(v+"<16", v+" < 16", v+" >= 16", v+" <= 15", v+" > 15")
-		need(v+"-in-range", "t.Colors > "+v, "t.Colors <= "+v, v+" < t.Colors", v+" >= t.Colors")
-		need(v+">=0", v+" >= 0", v+" < 0", v+" > -1", v+" <= -1")
-	}
-	// the fold subtracts 8
-	sub := map[string]bool{}
-	eachInstr(fn, func(in ssa.Instruction) {
-		if bo, ok := in.(*ssa.BinOp); ok && bo.Op == token.SUB {
-			if k, ok := constInt(bo.Y); ok && k == 8 {
-				sub[valName(bo.X)] = true
-			}
-		}
-	})
-	c.Check(sub["fi"] && sub["bi"], "C15-R3", "TColor:fold-by-8", p.pos(fn.Pos()), fmt.Sprintf("subtractions of 8 found on %v", sortedKeys(sub)))
-	// SetFg gets fi, SetBg gets bi
+	// Decided on values, not on names or layout: for the index X handed to TParm(SetFg, X)
+	//   - X is the foreground parameter, or that parameter minus 8 (never the background one);
+	//   - the minus-8 alternative arrives only where Colors == 8, 8 <= fi and fi < 16 are known;
+	//   - the call is made only where 0 <= X and X < Colors are known;
+	// and the same for SetBg with the background parameter.  Comparisons made in small helpers
+	// (`t.inPalette(fi)`, `foldBright(fi)`) count as if written in place.
+	param := map[string]*ssa.Parameter{"SetFg": fn.Params[1], "SetBg": fn.Params[2]}
+	seenCap := map[string]bool{}
 	eachInstr(fn, func(in ssa.Instruction) {
 		cc := callCommon(in)
 		if cc == nil || !strings.HasSuffix(calleeName(cc), "Terminfo).TParm") || len(cc.Args) != 3 {
@@ -320,18 +300,249 @@ func c15TColor(c *Ctx, p *Prog) {
 		}
 		ref, _, _ := loadedField(cc.Args[1])
 		_, vals, ok := varargCount(cc.Args[2])
-		if !ok || len(vals) != 1 {
+		if !ok || len(vals) != 1 || param[ref.Name] == nil {
 			c.Fail("C15-R3", "TColor:TParm("+ref.Name+")", p.pos(in.Pos()), "unexpected argument list")
 			return
 		}
-		arg := vals[0]
-		if mi, ok := arg.(*ssa.MakeInterface); ok {
-			arg = mi.X
+		seenCap[ref.Name] = true
+		v := map[string]string{"SetFg": "fi", "SetBg": "bi"}[ref.Name]
+		X := vals[0]
+		if mi, ok := X.(*ssa.MakeInterface); ok {
+			X = mi.X
 		}
-		nm := valName(arg)
-		want := map[string]string{"SetFg": "fi", "SetBg": "bi"}[ref.Name]
-		c.Check(want != "" && strings.Contains(nm, want) && !strings.Contains(nm, map[string]string{"fi": "bi", "bi": "fi"}[want]), "C15-R3", "TColor:TParm("+ref.Name+")", p.pos(in.Pos()), "argument "+nm)
+		X = stripConv(X)
+		alts := symAlts(X, nil, 0, map[ssa.Value]bool{})
+		// lineage
+		okBase, nFold, nPlain, badOff := true, 0, 0, ""
+		fold8, foldLo, foldHi := true, true, true
+		for _, a := range alts {
+			if a.base != ssa.Value(param[ref.Name]) {
+				okBase = false
+			}
+			switch a.off {
+			case 0:
+				nPlain++
+			case -8:
+				nFold++
+				P := symTerm{val: a.base}
+				if !symHolds(a.facts, symTerm{colors: true}, "==", symTerm{isConst: true, k: 8}) {
+					fold8 = false
+				}
+				if !symHolds(a.facts, P, ">=", symTerm{isConst: true, k: 8}) {
+					foldLo = false
+				}
+				if !symHolds(a.facts, P, "<", symTerm{isConst: true, k: 16}) {
+					foldHi = false
+				}
+			default:
+				badOff += fmt.Sprintf("%+d ", a.off)
+			}
+		}
+		c.Check(okBase, "C15-R3", "TColor:TParm("+ref.Name+")", p.pos(in.Pos()), fmt.Sprintf("the index handed to %s derives from the %s parameter on each of its %d alternative(s)", ref.Name, v, len(alts)))
+		c.Check(nFold >= 1 && nPlain >= 1 && badOff == "", "C15-R3", "TColor:fold-by-8:"+v, p.pos(in.Pos()), fmt.Sprintf("%d alternative(s) with 8 subtracted, %d unchanged, other offsets: [%s]", nFold, nPlain, badOff))
+		c.Check(nFold >= 1 && fold8, "C15-R3", "TColor:8-colour-test:"+v, p.pos(in.Pos()), "8 is subtracted only where Colors == 8 is known")
+		c.Check(nFold >= 1 && foldLo, "C15-R3", "TColor:"+v+">7", p.pos(in.Pos()), "8 is subtracted only where "+v+" >= 8 is known")
+		c.Check(nFold >= 1 && foldHi, "C15-R3", "TColor:"+v+"<16", p.pos(in.Pos()), "8 is subtracted only where "+v+" < 16 is known")
+		site := symFacts(rawGuardsAt(in.Block()), nil, 0)
+		c.Check(symHolds(site, symTerm{val: X}, "<", symTerm{colors: true}), "C15-R3", "TColor:"+v+"-in-range", p.pos(in.Pos()), "the capability is expanded only where index < Colors is known")
+		c.Check(symHolds(site, symTerm{val: X}, ">=", symTerm{isConst: true, k: 0}), "C15-R3", "TColor:"+v+">=0", p.pos(in.Pos()), "the capability is expanded only where index >= 0 is known")
 	})
+	for _, capName := range []string{"SetFg", "SetBg"} {
+		if !seenCap[capName] {
+			c.Fail("C15-R3", "TColor:TParm("+capName+")", p.pos(fn.Pos()), "no expansion of "+capName)
+		}
+	}
+}
+
+// ---- small symbolic view of integer tests (values, not names) --------------------------------------
+
+// symTerm: a constant, the Colors field of a Terminfo, or an SSA value of the function under study.
+type symTerm struct {
+	val     ssa.Value
+	isConst bool
+	k       int64
+	colors  bool
+}
+
+type symFact struct {
+	l  symTerm
+	op string
+	r  symTerm
+}
+
+type symAlt struct {
+	base  ssa.Value // what the value is, up to the offset
+	off   int64
+	facts []symFact // known on the way
+}
+
+func symTermOf(v ssa.Value, env map[*ssa.Parameter]ssa.Value) symTerm {
+	v = stripConv(v)
+	if k, ok := constInt(v); ok {
+		return symTerm{isConst: true, k: k}
+	}
+	if ref, _, ok := loadedField(v); ok && ref.Name == "Colors" {
+		return symTerm{colors: true}
+	}
+	if pa, ok := v.(*ssa.Parameter); ok && env != nil {
+		if a, bound := env[pa]; bound {
+			return symTermOf(a, nil)
+		}
+	}
+	return symTerm{val: v}
+}
+
+// symFacts: the comparisons among gs, with comparisons made inside a boolean helper called in a guard
+// (`if t.inPalette(fi)`) brought to the caller's values through the argument binding.
+func symFacts(gs []rawGuard, env map[*ssa.Parameter]ssa.Value, depth int) []symFact {
+	var out []symFact
+	for _, g := range gs {
+		cond := g.Cond
+		switch x := cond.(type) {
+		case *ssa.BinOp:
+			op := x.Op.String()
+			switch op {
+			case "==", "!=", "<", "<=", ">", ">=":
+				if !g.Positive {
+					op = negOp(op)
+				}
+				out = append(out, symFact{symTermOf(x.X, env), op, symTermOf(x.Y, env)})
+			}
+		case *ssa.Call:
+			h := x.Call.StaticCallee()
+			if h == nil || depth > 1 || len(h.Blocks) == 0 || x.Parent() == nil || h.Pkg != x.Parent().Pkg {
+				continue
+			}
+			env2 := map[*ssa.Parameter]ssa.Value{}
+			for i, pa := range h.Params {
+				if i < len(x.Call.Args) {
+					a := x.Call.Args[i]
+					if pp, isP := stripConv(a).(*ssa.Parameter); isP && env != nil {
+						if b, bound := env[pp]; bound {
+							a = b
+						}
+					}
+					env2[pa] = a
+				}
+			}
+			rets := returnsOf(h)
+			if len(rets) == 1 && len(rets[0].Results) == 1 {
+				out = append(out, symFacts(expandCond(derefCell(resultOf(rets[0], 0)), g.Positive, 0), env2, depth+1)...)
+				out = append(out, symFacts(rawGuardsAt(rets[0].Block()), env2, depth+1)...)
+				continue
+			}
+			// several returns: the one (and only one) that gives this answer
+			var match []*ssa.Return
+			for _, r := range rets {
+				if len(r.Results) != 1 {
+					continue
+				}
+				if v, isC := constBool(derefCell(resultOf(r, 0))); !isC || v == g.Positive {
+					match = append(match, r)
+				}
+			}
+			if len(match) == 1 {
+				out = append(out, symFacts(rawGuardsAt(match[0].Block()), env2, depth+1)...)
+			}
+		}
+	}
+	return out
+}
+
+// symAlts: the alternatives of an integer value as "some value plus a constant", looking through phis
+// (with what is known on each edge) and through a pure module helper (with what is known at each of its
+// returns, its parameters bound to the arguments).
+func symAlts(v ssa.Value, env map[*ssa.Parameter]ssa.Value, depth int, seen map[ssa.Value]bool) []symAlt {
+	v = stripConv(v)
+	if seen[v] {
+		return nil
+	}
+	switch x := v.(type) {
+	case *ssa.Parameter:
+		if env != nil {
+			if a, bound := env[x]; bound {
+				return symAlts(a, nil, depth, seen)
+			}
+		}
+	case *ssa.BinOp:
+		if k, ok := constInt(x.Y); ok && (x.Op == token.SUB || x.Op == token.ADD) {
+			if x.Op == token.SUB {
+				k = -k
+			}
+			alts := symAlts(x.X, env, depth, seen)
+			for i := range alts {
+				alts[i].off += k
+			}
+			return alts
+		}
+	case *ssa.Phi:
+		seen[v] = true
+		defer delete(seen, v)
+		var out []symAlt
+		for i, e := range x.Edges {
+			ef := symFacts(rawGuardsOnEdge(x.Block().Preds[i], x.Block()), env, 0)
+			for _, a := range symAlts(e, env, depth, seen) {
+				a.facts = append(append([]symFact{}, ef...), a.facts...)
+				out = append(out, a)
+			}
+		}
+		return out
+	case *ssa.Call:
+		h := x.Call.StaticCallee()
+		if h != nil && depth == 0 && env == nil && len(h.Blocks) > 0 && x.Parent() != nil && h.Pkg == x.Parent().Pkg && h.Signature.Results().Len() == 1 {
+			env2 := map[*ssa.Parameter]ssa.Value{}
+			for i, pa := range h.Params {
+				if i < len(x.Call.Args) {
+					env2[pa] = x.Call.Args[i]
+				}
+			}
+			var out []symAlt
+			for _, r := range returnsOf(h) {
+				rf := symFacts(rawGuardsAt(r.Block()), env2, 0)
+				for _, a := range symAlts(derefCell(resultOf(r, 0)), env2, depth+1, seen) {
+					a.facts = append(append([]symFact{}, rf...), a.facts...)
+					out = append(out, a)
+				}
+			}
+			return out
+		}
+	}
+	return []symAlt{{base: v}}
+}
+
+func symSame(a, b symTerm) bool {
+	if a.isConst || b.isConst {
+		return a.isConst && b.isConst && a.k == b.k
+	}
+	if a.colors || b.colors {
+		return a.colors && b.colors
+	}
+	return a.val == b.val
+}
+
+// symHolds: `l op r` is among the facts, in any of its equivalent spellings (operands swapped, a strict
+// bound against a constant written as the non-strict one next to it).
+func symHolds(facts []symFact, l symTerm, op string, r symTerm) bool {
+	for _, f := range facts {
+		for _, g := range []symFact{f, {f.r, swapOp(f.op), f.l}} {
+			if !symSame(g.l, l) {
+				continue
+			}
+			if symSame(g.r, r) && g.op == op {
+				return true
+			}
+			if r.isConst && g.r.isConst {
+				switch {
+				case op == ">=" && g.op == ">" && g.r.k == r.k-1,
+					op == "<" && g.op == "<=" && g.r.k == r.k-1,
+					op == ">" && g.op == ">=" && g.r.k == r.k+1,
+					op == "<=" && g.op == "<" && g.r.k == r.k+1:
+					return true
+				}
+			}
+		}
+	}
+	return false
 }
 
 func c15TPuts(c *Ctx, p *Prog) {
